@@ -2,7 +2,7 @@
     Model: Core/Value.v, Core/Syntax.v, Core/Render.v (the interpreter for the
     Core Liquid Fragment, which the correspondence run ties to /repo).
     The theorems state the documented laws of that semantics. *)
-From LQ Require Import Core.Render Proofs.Value_proofs Proofs.Render_proofs Proofs.Render_buffer Proofs.Render_fuel.
+From LQ Require Import Core.Render Proofs.Value_proofs Proofs.Render_proofs Proofs.Render_buffer Proofs.Render_fuel Proofs.CrossModel.
 
 (** Sequencing is compositional: rendering [l1 ++ l2] is rendering [l1] and
     then [l2] from where [l1] stopped; the meaning of a construct does not
@@ -105,3 +105,16 @@ Theorem c01_fuel_irrelevant : forall g ld f k n c b,
   st (render g ld f n c b) <> SFuel -> render g ld (k + f) n c b = render g ld f n c b.
 Proof. exact render_fuel_irrelevant. Qed.
 Print Assumptions c01_fuel_irrelevant.
+
+(** Two independently written transcriptions of LoopExpression._slice - the one
+    in this interpreter and the one of the sync/async twin kernel (C03) - denote
+    the same function: same items, same forloop.length, same stop index. *)
+Theorem c01_loop_slice_models_agree : forall it limit offset ic prev rv,
+  (0 <= prev)%Z ->
+  (ic = true -> offset = None) ->
+  let '(items, len, stop) := core_slice it limit offset ic prev rv in
+  exists out,
+    T.loop_slice it rv prev limit (to_ov offset ic) = Ok out /\
+    items = map VInt (T.lo_items out) /\ len = T.lo_length out /\ stop = T.lo_stopindex out.
+Proof. exact loop_slice_models_agree. Qed.
+Print Assumptions c01_loop_slice_models_agree.
